@@ -104,8 +104,14 @@ CLAIMED['C05'] = dict(
          'The concrete twin signs with the real CKey and verifies with real OpenSSL.',
     note='the ECDSA contract (a signature verifies for exactly the key and digest it was made for, distinct signing events give distinct signatures) is an assumption of the symbolic run; '
          'double-SHA256 collision-free on the path; mutations inside key.py are not detected by the symbolic run (C13 not applicable), only by the concrete twin.')
+CLAIMED['C19'] = dict(
+    text=_T + 'bitcoin.rpc run against a scripted connection with json/decimal modelled: every received-amount site returns exactly m for the wire text m*10^-8 with m symbolic over 0..21e14 '
+         '(a dropped parse_float turns the conversion into IEEE arithmetic and the solver returns a concrete amount such as 0.29 BTC); sent amounts are exactly the correctly rounded double a/1e8; '
+         '32-byte hashes cross lx/b2lx so that a returned hash is sent back as the same text; transactions and headers cross the hex encoding bit-exactly; error replies with a symbolic code raise the '
+         'registered class, malformed replies raise JSONRPCError, ids strictly increase.',
+    note='json, decimal and HTTP are stubs by contract (value trees, parse_float honoured); the step from "correctly rounded quotient" to "JSON text denotes exactly a satoshis" is a stated paper argument '
+         '(relative error 2^-53 < half a satoshi; shortest repr); only the listed RPC methods are covered.',
+    technique='bounded symbolic execution of the real Python source on z3 proxies; floating-point obligations by cvc5 (QF_BVFP)')
 _UC = 'check not built yet in this round (engine exists; harness pending) - will be claimed or declared not applicable with its real reason'
-for _i in ['C19']:
-    NA[_i] = _UC
 NA['C13'] = ('key derivation, signing, verification and point validity are computed by OpenSSL through ctypes: there is no Python or IR to execute '
              'symbolically, and the reference (secp256k1 group law, 256-bit modular inversion) is non-linear 256-bit arithmetic out of reach of z3/cvc5')
